@@ -28,7 +28,9 @@ func c05Variants(tier string, reportsBase string) []cfgVariant {
 	vs := []cfgVariant{
 		{Name: "ondemand", Set: map[string]any{"summarize-on-demand": true}},
 		{Name: "pf-none", Set: map[string]any{"pkg-filter": "^$"}},
-		{Name: "pf-all", Set: map[string]any{"pkg-filter": ".*"}},
+		// (pkg-filter ".*" would summarise the whole standard library from its bodies: > 20 GB and > 20 min per run;
+		// a filter that adds a few std packages to the program's own is the feasible "wider than default" point)
+		{Name: "pf-wide", Set: map[string]any{"pkg-filter": "vprog|strconv|path|unicode"}},
 		{Name: "pf-lib", Set: map[string]any{"pkg-filter": "vprog/lib"}},
 		{Name: "reports-all", Set: map[string]any{"report-paths": true, "report-summaries": true, "report-coverage": true, "report-no-callee-sites": true, "reports-dir": rd("all")}},
 		{Name: "coverage-filter", Set: map[string]any{"report-coverage": true, "coverage-filter": "vprog", "reports-dir": rd("cov")}},
